@@ -229,10 +229,10 @@ impl Property for Prop {
         "C08"
     }
     fn rule(&self) -> &'static str {
-        "histories: seeded sequences of 200..3000 calls of provision (from the caller's pool or a fresh buffer, also when the free list is full), decap of packets targeted at each exit (valid complete / first / intermediate / end; re-use without remembered label in complete and first packets; CRC and length mismatch; oversize complete / first / intermediate / end; unknown and aliasing fragment ids; unknown mandatory extension; zero label; no storage; short GSE length per kind) mixed with hostile packets, reset; memories of 0,1,2,4 slots; after EVERY call a clone-and-drain census of the bundled memory is compared with the set of buffers ever created (identity = unique length): every buffer in exactly one of caller / free / attached / quarantine. faults: for each scenario (receiver state x packet) the memory operations behind the GseDecapMemory trait are counted, then the scenario is re-run failing operation i for every i with every error the trait documents for that operation (StorageUnderflow, StorageOverflow(buf), BufferTooSmall(buf), UndefinedId, MemoryCorrupted). An evaluation = one audited call; non-trivial = an audited decap call that ended in an error or moved a buffer; fingerprint = (exit signature, free count, attached count, injected fault)."
+        "histories: seeded sequences of 200..3000 calls of provision (from the caller's pool or a fresh buffer, also when the free list is full), decap of packets targeted at each exit (valid complete / first / intermediate / end; re-use without remembered label in complete and first packets; CRC and length mismatch; oversize complete / first / intermediate / end; unknown and aliasing fragment ids; unknown mandatory extension; zero label; no storage; short GSE length per kind) mixed with hostile packets, reset; memories of 0,1,2,4 slots; after EVERY call a clone-and-drain census of the bundled memory is compared with the set of buffers ever created (identity = unique length): every buffer in exactly one of caller / free / attached / quarantine. faults: for each scenario (receiver state x packet) the memory operations behind the GseDecapMemory trait are counted, then the scenario is re-run failing operation i for every i with every error the trait documents for that operation (StorageUnderflow, StorageOverflow(buf), BufferTooSmall(buf), UndefinedId, MemoryCorrupted). big: buffers of 70000+ bytes with trains that reach and exceed 65535 received bytes, audited after every call. An evaluation = one audited call; non-trivial = an audited decap call that ended in an error or moved a buffer; fingerprint = (exit signature, free count, attached count, injected fault)."
     }
     fn gens(&self, cx: &Cx) -> Vec<Gen> {
-        vec![Gen { name: "histories", count: cx.n(1_500, 60_000), exhaustive: false }, Gen { name: "faults", count: cx.n(6_000, 300_000), exhaustive: false }]
+        vec![Gen { name: "histories", count: cx.n(1_500, 60_000), exhaustive: false }, Gen { name: "faults", count: cx.n(6_000, 300_000), exhaustive: false }, Gen { name: "big", count: cx.n(24, 600), exhaustive: false }]
     }
     fn run_key(&self, cx: &Cx, gen: &str, key: u64, rep: &mut Report) {
         let replay_s = format!("gen={} key={} seed={} profile={}", gen, key, cx.seed, cx.profile);
@@ -298,6 +298,90 @@ impl Property for Prop {
                 if key == 0 {
                     rep.sample(|| format!("history: slots {}, {} audited calls, last [{}], {} buffers created, conservation held at every step", slots, n, recent.join(" ; "), w.universe.len()));
                 }
+            }
+            "big" => {
+                // storage buffers above 64 KiB: trains that reach / exceed 65535 received bytes, oversize
+                // fragments, bad trailers; audit after every call (identity = unique length 70000 + k)
+                let slots = 1 + rng.below(2);
+                let mut dec = mon_dec(slots, 70000, &[], MandTable::none(), RecCrc::off());
+                let mut pool: Vec<Box<[u8]>> = Vec::new();
+                let universe: Vec<usize> = (0..3).map(|k| 70000 + k).collect();
+                for l in &universe {
+                    pool.push(vec![0u8; *l].into_boxed_slice());
+                }
+                let audit = |dec: &MonDec, pool: &Vec<Box<[u8]>>| -> Result<(), String> {
+                    let hint: Vec<u8> = dec.memory.saved_ids.iter().rev().cloned().collect();
+                    let c = census(&dec.memory.inner, slots, 70000, &hint).map_err(|p| format!("census panicked: {}", p))?;
+                    let mut all: Vec<usize> = pool.iter().map(|b| b.len()).collect();
+                    all.extend(c.free.iter());
+                    all.extend(c.attached.iter().map(|(_, l)| *l));
+                    all.extend(dec.memory.quarantine.iter().map(|b| b.len()));
+                    all.sort_unstable();
+                    if all != universe {
+                        return Err(format!("buffers created {:?}; caller holds {:?}, free {:?}, attached {:?}", universe, pool.iter().map(|b| b.len()).collect::<Vec<_>>(), c.free, c.attached));
+                    }
+                    Ok(())
+                };
+                let id = rng.byte();
+                let total_announced: u16 = [65535u16, 65000, 3000][rng.below(3)];
+                let mut recent: Vec<String> = Vec::new();
+                let steps = 24 + rng.below(12);
+                let mut started = false;
+                for step in 0..steps {
+                    rep.eval();
+                    let what: String;
+                    // even keys: a scripted run straight to the 16-bit limit (first fragment, then 4000-byte
+                    // intermediates until the received length would exceed 65535), then random traffic
+                    let scripted = key % 2 == 0 && step < 22;
+                    if (scripted && step == 0 && !pool.is_empty()) || (!scripted && rng.chance(1, 4) && !pool.is_empty()) {
+                        let b = pool.pop().unwrap();
+                        match crate::mon::guard(|| dec.provision_storage(b)) {
+                            Ok(Ok(())) => what = "provision -> ok".into(),
+                            Ok(Err(DecapMemoryError::StorageOverflow(b))) | Ok(Err(DecapMemoryError::BufferTooSmall(b))) => {
+                                pool.push(b);
+                                what = "provision -> refused".into();
+                            }
+                            _ => what = "provision -> lost".into(),
+                        }
+                    } else {
+                        let p = if scripted {
+                            if !started {
+                                started = true;
+                                mk_first(2, &[], id, 65535, 0x0800, &vec![0x11u8; 100])
+                            } else {
+                                mk_inter(id, &vec![0x33u8; 4000])
+                            }
+                        } else if !started || rng.chance(1, 12) {
+                            started = true;
+                            mk_first(2, &[], id, total_announced, 0x0800, &vec![0x11u8; rng.below(200)])
+                        } else if rng.chance(1, 10) {
+                            mk_end(id, &vec![0x22u8; rng.below(4000)], rng.next() as u32)
+                        } else {
+                            mk_inter(id, &vec![0x33u8; [4000usize, 4094, 1000, 535, 1][rng.below(5)]])
+                        };
+                        let r = dec_guard(&mut dec, &p);
+                        what = format!("decap({} {}B) -> {}", crate::wire::Kind::from_word(u16::from_be_bytes([p[0], p[1]])).name(), p.len(), dec_res_str(&r));
+                        match r {
+                            Err(_) => {
+                                rep.count("big.panic");
+                            }
+                            Ok(Ok((DecapStatus::CompletedPkt(b, _), _))) => pool.push(b),
+                            Ok(Err((DecapError::ErrorMemory(DecapMemoryError::StorageOverflow(b)), _))) | Ok(Err((DecapError::ErrorMemory(DecapMemoryError::BufferTooSmall(b)), _))) => pool.push(b),
+                            Ok(Err((e, _))) => rep.count(&format!("big.exit.{}", short_err(&e).replace(|c: char| c.is_ascii_digit(), ""))),
+                            _ => {}
+                        }
+                    }
+                    recent.push(what);
+                    if recent.len() > 5 {
+                        recent.remove(0);
+                    }
+                    if let Err(d) = audit(&dec, &pool) {
+                        rep.violation("C08", "conservation:storage-above-64KiB".into(), || format!("slots {}, buffers of 70000+ bytes: after [{}]: {}", slots, recent.join(" ; "), d), &|| format!("{} step={}", replay_s, step));
+                        return;
+                    }
+                    rep.nontrivial(mix(mix(0xB16, key), step as u64));
+                }
+                rep.count("big.histories");
             }
             "faults" => {
                 // scenario = short seeded set-up history + one packet; then fail each memory operation in turn
@@ -367,7 +451,7 @@ impl Property for Prop {
         }
     }
     fn floors(&self, _cx: &Cx, rep: &mut Report) {
-        for k in ["census.with-attached", "faults.injected.Underflow", "faults.injected.Overflow", "faults.injected.UndefinedId", "faults.injected.Corrupted", "target.end-bad-crc", "target.end-valid", "target.inter-oversize", "target.complete-reuse", "target.first-unknown-mandatory"] {
+        for k in ["census.with-attached", "faults.injected.Underflow", "faults.injected.Overflow", "faults.injected.UndefinedId", "faults.injected.Corrupted", "target.end-bad-crc", "target.end-valid", "target.inter-oversize", "target.complete-reuse", "target.first-unknown-mandatory", "big.histories", "big.exit.ErrorTotalLength"] {
             if rep.get(k) == 0 {
                 rep.floors_missing.push(format!("C08 floor: counter {} is 0", k));
             }
